@@ -48,6 +48,11 @@ func constStr(k *ssa.Const) string {
 	return k.Value.ExactString()
 }
 
+// fpBind: while a helper is folded in, its function-typed parameters stand for
+// the function values the caller passed (anyName(c, pred) with pred a function of
+// the package or a literal): a call of the parameter is a call of that function.
+var fpBind = map[*ssa.Parameter]ssa.Value{}
+
 func fpInto(fp Fingerprint, fn *ssa.Function, home *ssa.Package, depth int, seen map[*ssa.Function]bool) {
 	if fn == nil || seen[fn] || len(fn.Blocks) == 0 {
 		return
@@ -79,8 +84,42 @@ func fpInto(fp Fingerprint, fn *ssa.Function, home *ssa.Package, depth int, seen
 				return
 			}
 			callee := cc.StaticCallee()
+			if callee == nil && !cc.IsInvoke() {
+				// a call through a function-typed parameter bound by the caller
+				if p, ok := cc.Value.(*ssa.Parameter); ok {
+					switch bv := fpBind[p].(type) {
+					case *ssa.Function:
+						callee = bv
+					case *ssa.MakeClosure:
+						callee, _ = bv.Fn.(*ssa.Function)
+					}
+					if callee != nil && (callee.Pkg == home || callee.Parent() != nil) && depth < 4 {
+						delete(seen, callee) // may be folded once per use
+						fpInto(fp, callee, home, depth+1, seen)
+						return
+					}
+				}
+			}
 			if callee != nil && callee.Pkg == home && depth < 3 && callee.Signature.Recv() == nil || (callee != nil && callee.Pkg == home && depth < 3 && isModFunc(callee) && callee != fn) {
+				var bound []*ssa.Parameter
+				for i, a := range cc.Args {
+					if i < len(callee.Params) {
+						switch a.(type) {
+						case *ssa.Function, *ssa.MakeClosure:
+							if _, dup := fpBind[callee.Params[i]]; !dup {
+								fpBind[callee.Params[i]] = a
+								bound = append(bound, callee.Params[i])
+							}
+						}
+					}
+				}
+				if len(bound) > 0 {
+					delete(seen, callee) // the helper's behaviour depends on what it is given
+				}
 				fpInto(fp, callee, home, depth+1, seen)
+				for _, p := range bound {
+					delete(fpBind, p)
+				}
 				// constants passed to the helper still matter
 				for _, a := range cc.Args {
 					if k, ok := a.(*ssa.Const); ok && k.Value != nil {
